@@ -74,8 +74,8 @@ AltRead(a) ==
      hist |-> Append(a.hist, <<"read", EvRow(r.ev, r.st), NsResolvedOf(inp, r), Queries(r.ns), NsPrefixes(r.ns), r.nserr>>)]
 AltSkip(a) ==
     IF a.dead THEN a ELSE
-    IF ~a.ls.fresh THEN AltRead(a) ELSE
-    LET k == NsSkip(inp, cfg, a.st, a.ns, KnownDevs, Slice(inp, a.ls.lo, a.ls.hi)) IN
+    IF a.st.opened = <<>> THEN AltRead(a) ELSE
+    LET k == NsSkip(inp, cfg, a.st, a.ns, KnownDevs, Slice(inp, Last(a.st.opened).lo, Last(a.st.opened).hi)) IN
     [st |-> k.r.st, ns |-> k.ns, dead |-> FALSE, ls |-> [a.ls EXCEPT !.fresh = FALSE],
      hist |-> Append(a.hist, <<"rte", <<IF k.r.ok THEN "Span" ELSE "Err", k.r.e, 0, 0, 0, 0, 0, BufferPosition(k.r.st), k.r.st.errpos, k.r.start, k.r.end>>,
                               <<"Unbound">>, Queries(k.ns), NsPrefixes(k.ns), "">>)]
@@ -91,8 +91,11 @@ Read == /\ ~done
         /\ alt' = AltRead(alt)
         /\ UNCHANGED <<frs, inp, cfg, nskips>>
 
-Skip == /\ ~done /\ nskips < MaxSkips /\ lastStart.fresh
-        /\ LET k == NsSkip(inp, cfg, st, ns, {}, Slice(inp, lastStart.lo, lastStart.hi)) IN
+\* skip the rest of the innermost open element (right after its Start, or after some of its
+\* children were read event by event - then a pop may still be owed for the last Empty/End)
+OpenName(s0) == Slice(inp, Last(s0.opened).lo, Last(s0.opened).hi)
+Skip == /\ ~done /\ nskips < MaxSkips /\ st.opened # <<>>
+        /\ LET k == NsSkip(inp, cfg, st, ns, {}, OpenName(st)) IN
            /\ st' = k.r.st /\ ns' = k.ns
            /\ last' = [op |-> "skip", ev |-> EofEv, pre |-> st, post |-> k.r.st, err |-> IF k.r.ok THEN "" ELSE "skip-failed"]
            /\ done' = ~k.r.ok
